@@ -860,6 +860,78 @@ def mutants(rng, src, n):
     return res
 
 
+def multi_file_set(rng):
+    """a set of .api files importing one another that goctl's analyzer accepts (declared types only,
+    one service name, unique handlers and routes), in a random odd layout with comments on lines of
+    their own and at line ends: {"files": {name: text}, "root": name}"""
+    base = ["int", "string", "bool", "int64", "[]string", "map[string]int", "*int", "[]byte", "float64"]
+    names = []
+
+    def tdef(i):
+        n = "T%d" % i
+        members = []
+        for j in range(rng.randint(0, 4)):
+            ty = rng.choice(base + names + ["[]" + x for x in names] + ["*" + x for x in names] + ["map[string]" + x for x in names])
+            tag = rng.choice(['`json:"f%d"`' % j, '`json:"f%d,optional"`' % j, '`form:"f%d"`' % j, ""])
+            members.append("\tF%d %s %s" % (j, ty, tag))
+        if names and rng.random() < 0.3:
+            members.append("\t" + rng.choice(names))
+        names.append(n)
+        return n, members
+
+    def types_block(k0, k):
+        defs = [tdef(i) for i in range(k0, k0 + k)]
+        if rng.random() < 0.5:
+            return "type (\n" + "".join("\t%s {\n%s\t}\n" % (n, "".join("\t" + m + "\n" for m in ms)) for n, ms in defs) + ")\n"
+        return "".join("type %s {\n%s}\n" % (n, "".join(m + "\n" for m in ms)) for n, ms in defs)
+
+    hid = [0]
+
+    def service_block(name):
+        text = ""
+        if rng.random() < 0.6:
+            text += "@server (\n\tgroup: g%d\n\tprefix: /v%d\n%s)\n" % (hid[0], hid[0], rng.choice(["", "\ttimeout: 3s\n", "\tjwt: Auth\n"]))
+        text += "service %s {\n" % name
+        for _ in range(rng.randint(1, 3)):
+            hid[0] += 1
+            if rng.random() < 0.5:
+                text += rng.choice(['\t@doc "d%d"\n' % hid[0], '\t@doc (\n\t\tsummary: "s%d"\n\t)\n' % hid[0], '\t@doc ""\n'])
+            text += "\t@handler h%d\n" % hid[0]
+            req = rng.choice(["", " (%s)" % rng.choice(names)]) if names else ""
+            resp = rng.choice(["", " returns (%s)" % rng.choice(names), " returns ([]%s)" % rng.choice(names)]) if names else ""
+            text += "\t%s /r%d/:id%s%s\n" % (rng.choice(["get", "post", "put"]), hid[0], req, resp)
+        return text + "}\n"
+
+    svc = rng.choice(["demo", "demo-api"])
+    f_types = types_block(0, rng.randint(1, 3))
+    chain = rng.random() < 0.5          # root -> more -> types, or root -> {types, more}
+    f_more = ('import "types.api"\n' if chain else "") + types_block(10, rng.randint(1, 2)) + service_block(svc)
+    root = 'syntax = "v1"\n\ninfo (\n\ttitle: "multi"\n\tdesc: ""\n)\n\n'
+    if chain:
+        root += rng.choice(['import "more.api"\n', 'import (\n\t"more.api"\n)\n', 'import "more.api"\ntype ()\n'])
+    else:
+        root += rng.choice(['import "types.api"\nimport "more.api"\n', 'import (\n\t"types.api"\n\t"more.api"\n)\n',
+                            'import "types.api"\ntype ()\nimport (\n\t"more.api"\n)\n'])
+    root += types_block(20, rng.randint(0, 2)) + service_block(svc) + (service_block(svc) if rng.random() < 0.4 else "")
+
+    def mess(text):
+        out = []
+        for ln in text.split("\n"):
+            if rng.random() < 0.3:
+                ln = ln.lstrip("\t")
+            if rng.random() < 0.2:
+                ln = ln.replace(" ", rng.choice(["  ", "\t", " \t "]))
+            if ln.strip() and rng.random() < 0.12 and "`" not in ln and '"' not in ln:
+                ln += rng.choice([" // c%d" % len(out), " /* c%d */" % len(out)])
+            if rng.random() < 0.08:
+                out.append(rng.choice(["// own %d" % len(out), "", "/* own %d */" % len(out)]))
+            out.append(ln)
+        return ("\r\n" if rng.random() < 0.1 else "\n").join(out)
+
+    files = {"types.api": mess(f_types), "more.api": mess(f_more), "root.api": mess(root)}
+    return {"files": files, "root": "root.api", "src": files["root.api"], "muts": []}
+
+
 def generate(rng, opts=None, odd=None, pc=None, inline=1):
     g = Gen(rng, opts)
     d = Deco(rng, odd=odd if odd is not None else rng.choice([0.0, 0.05, 0.15, 0.3]),
